@@ -81,6 +81,18 @@ def lean_str(s):
     return out + '"'
 
 
+def lean_chars(s):
+    """Lean `List Char` literal (kernel evaluation of String.toList on long literals is slow)"""
+    def ch(c):
+        o = ord(c)
+        if c == "'" or c == "\\":
+            return "'\\" + c + "'"
+        if 0x20 <= o < 0x7f:
+            return "'" + c + "'"
+        return "Char.ofNat %d" % o
+    return "[" + ", ".join(ch(c) for c in s) + "]"
+
+
 def extract_entities():
     src = open(os.path.join(core.REPO, "externals/tinyxml2/tinyxml2.cpp"), encoding="latin-1").read()
     hdr = open(os.path.join(core.REPO, "externals/tinyxml2/tinyxml2.h"), encoding="latin-1").read()
@@ -219,9 +231,9 @@ def gen_texts():
           "/- GENERATED by vlib/props/c26.py from cli/cmdlineparser.cpp (--template=<name> and the default) — do not edit -/",
           "namespace Cppcheck.Gen.Templates", "",
           "/-- (name, templateFormat, templateLocation) as written in the source, before substituteTemplate*Static -/",
-          "def predefined : List (String × String × String) := ["]
+          "def predefined : List (String × List Char × List Char) := ["]
     names = sorted(tpls)
-    tp.append(",\n".join("  (%s, %s, %s)" % (lean_str(n), lean_str(tpls[n][0]), lean_str(tpls[n][1] or "")) for n in names))
+    tp.append(",\n".join("  -- %s\n  -- %s\n  (%s, %s,\n   %s)" % (tpls[n][0], tpls[n][1] or "", lean_str(n), lean_chars(tpls[n][0]), lean_chars(tpls[n][1] or "")) for n in names))
     tp += ["]", "", "end Cppcheck.Gen.Templates", ""]
     rg = ["import Cppcheck.Model.XmlEsc",
           "/- GENERATED by vlib/props/c26.py from cppcheck-errors.rng — do not edit -/",
